@@ -236,6 +236,25 @@ def build():
         return root, mp
     for i in range(3):
         add(f'check-proof/{i}', lambda i=i: (lambda r, mp: (guarded(lambda: check_proof(mp, r.hash)), guarded(lambda: check_proof(mp, bytes(32))), mp.level_mask.mask, r.hash == mp[0].get_hash(0)))(*small_proof(f'p{i}')))
+    # class-level helpers reached through the class and through subclasses of it (applications subclass Cell / Address / Slice): what a call on one class returns
+    # must not depend on whether the same helper was called on another class before
+    class SubCell(Cell):
+        pass
+
+    class SubCell2(SubCell):
+        pass
+
+    class SubSlice(Slice):
+        pass
+    boc1 = Builder().store_uint(0xABCD, 16).store_ref(Builder().store_uint(5, 3).end_cell()).end_cell().to_boc()
+    for cname, cls in (('Cell', Cell), ('SubCell', SubCell), ('SubCell2', SubCell2)):
+        add(f'classhelper/empty/{cname}', lambda cls=cls: (lambda c: (type(c).__name__, c.hash.hex()[:12], len(c.bits), len(c.refs)))(cls.empty()))
+        add(f'classhelper/one_from_boc/{cname}', lambda cls=cls: (lambda c: (type(c).__name__, type(c.refs[0]).__name__, c.hash.hex()[:12]))(cls.one_from_boc(boc1)))
+        add(f'classhelper/from_boc/{cname}', lambda cls=cls: [(type(c).__name__, c.hash.hex()[:12]) for c in cls.from_boc(boc1)])
+        add(f'classhelper/copy/{cname}', lambda cls=cls: (lambda c: (type(c.copy()).__name__, type(c.begin_parse()).__name__, type(c.to_builder()).__name__))(cls.one_from_boc(boc1)))
+    for cname, cls in (('Slice', Slice), ('SubSlice', SubSlice)):
+        add(f'classhelper/slice-one_from_boc/{cname}', lambda cls=cls: (lambda x: (type(x).__name__, x.bits.to01(), x.remaining_refs))(cls.one_from_boc(boc1)))
+        add(f'classhelper/slice-from_cell/{cname}', lambda cls=cls: (lambda x: (type(x).__name__, type(x.copy()).__name__, x.bits.to01()))(cls.from_cell(Cell.one_from_boc(boc1))))
     return P
 
 
